@@ -2,24 +2,10 @@
    options.create: whatever a selected target held at an address that is not comparable with an
    address the matcher returned (for one of the paths) is still there afterwards; and every returned
    field receives set_field_value of the value. *)
-From KV Require Import Base.Regex Yaml.Match Yaml.MatchProofs Yaml.MatchFrameProofs
+From KV Require Import Base.Regex Yaml.Match Yaml.MatchProofs Yaml.MatchFrameProofs Yaml.MatchDisjointProofs
   Res.Selector Res.Replacement Res.ReplacementProofs.
 
 Ltac inv H := inversion H; subst; clear H.
-
-Fixpoint at_addrs (hits : list hit) : list addr :=
-  match hits with
-  | [] => []
-  | HAt a :: t => a :: at_addrs t
-  | HDetached _ :: t => at_addrs t
-  end.
-
-Lemma in_at_addrs a hits : In a (at_addrs hits) <-> In (HAt a) hits.
-Proof.
-  induction hits as [|[b|x] t IH]; cbn; [tauto| |].
-  - rewrite IH. split; intros [H|H]; auto; [left; congruence|inv H; auto].
-  - rewrite IH. split; [auto|intros [H|H]; [discriminate|auto]].
-Qed.
 
 Section Fields.
   Variable parse : string -> option re.
@@ -107,12 +93,6 @@ Section Fields.
 End Fields.
 
 (* ---------- the value every returned field receives ---------- *)
-Fixpoint pairwise_incomparable (l : list addr) : bool :=
-  match l with
-  | [] => true
-  | a :: t => forallb (fun b => negb (comparable a b) && negb (comparable b a)) t && pairwise_incomparable t
-  end.
-
 (* with a private copy of the value (not live) and returned addresses that do not overlap, EVERY
    returned field receives set_field_value of that value *)
 Theorem write_hits_all opts value : forall hits n n' st,
@@ -135,6 +115,16 @@ Proof.
       apply andb_prop in P1. destruct P1 as [_ B]. apply negb_true_iff in B. auto.
   - destruct (set_field_value opts value y); cbn in H; try discriminate.
     destruct Hin as [E|Hin]; [discriminate|]. eapply IH; eauto.
+Qed.
+
+(* ... in particular for what PathMatcher returns: its addresses never overlap (pm_hits_incomparable) *)
+Theorem matched_fields_written parse enc nonstr create fuel path opts value n d hits n' st :
+  pm parse enc nonstr create fuel path n = Ok (d, hits) ->
+  write_hits opts None value hits d = Ok (n', st) ->
+  forall h x, In (HAt h) hits -> get_at h d = Some x ->
+    exists x', set_field_value opts value x = Ok x' /\ get_at h n' = Some x'.
+Proof.
+  intros P W. eapply write_hits_all; eauto. eapply pm_hits_incomparable; eauto.
 Qed.
 
 (* non-vacuity: two field paths, the second one created; the untouched sibling is kept *)
